@@ -38,9 +38,25 @@ META = {'design_ref': 'DESIGN.md section 7 / C04',
  'level_note': 'Trusted: Coq kernel; the tie (facade engine.rs, harness, OCaml driver incl. the generator); the reference codec used by the simulated broker '
                '(SpecDecodeC2S / SpecEncodeS2C); abstract component hypotheses of the engine theorems (no-panic of codec / validators / resolvers) are '
                'discharged in the codec / validation / alias developments or stated as premises.',
- 'level_text': 'Coq theorems about the acknowledgement handlers for every state (C04_unknown_ack_rejected, C04_puback_needs_qos1, C04_pubcomp_needs_pubrel, '
-               'C04_pubrec_success, C04_suback_needs_matching_subscribe); the multi-connection sequence property itself (first DUP=0, resend only with session '
-               'and DUP=1 and the same id, PUBREL after PUBREC, nothing repeated within a connection, nothing after completion) is the extracted automaton '
-               'mon_c04 judged on the implementation trace of every history — partial: the trace-level theorem is not proved',
+ 'level_text': 'Coq theorems, each about EVERY state of the engine model for ONE call (no sampling; premises: the call does not panic, and where a '
+               'packet id must identify its operation the simple pid_consistent, both implied by the engine invariant WF): acknowledgement handlers '
+               '(C04_unknown_ack_rejected, C04_puback_needs_qos1, C04_pubcomp_needs_pubrel, C04_pubrec_success, C04_suback_needs_matching_subscribe; '
+               'C04_puback_completes / C04_pubrec_failure_completes / C04_pubcomp_completes + C04_released_frees: exactly that operation completes with '
+               'exactly that ack, its id leaves s_alloc / s_ppub / s_pnon, no queue changes, the timeout heap is cleaned lazily); connection close '
+               '(C04_close_requeues: new resubmit queue = [seated DUP publish not awaiting an ack] ++ old queue ++ surviving pending publishes in id '
+               'order, each with DUP:=1 and unchanged id / PUBREL slot / content, every other packet untouched; C04_close_failures: completions fired by '
+               'a close are only ConnectionClosed / OfflineQueuePolicyFailed for a packet the policy table rejects / MaxInterruptedRetriesExceeded); '
+               'session handling at CONNACK (C04_session_present_keeps: queues sorted, operations outside the user queue untouched, ids kept; '
+               'C04_session_absent_restarts: policy-passing resubmits move to the user queue with DUP:=0, id unbound, PUBREL slot cleared, the rejected '
+               'ones are failed with OfflineQueuePolicyFailed and exactly those, s_alloc and the inbound QoS 2 set emptied); frame theorem '
+               'C04_dup_only_by_close (+ C04_first_binding_keeps_content, C04_same_packets_trans): every event other than EvClose and an EvData in '
+               'PendingConnack leaves packet and bound id of every surviving operation unchanged except the first packet-id binding; encoder input '
+               '(C04_seat_encodes_wire_packet: a seated operation is encoded as its PUBREL when the PUBREL slot is set, as its own packet otherwise; '
+               'C04_seat_skips_completed: the id of a completed operation is dropped without encoding anything). For well-formed states / run level '
+               '(all event histories, through the WF invariant): C04_wf_close_requeues, C04_wf_session_no_panic, C04_wf_session_present_keeps, '
+               'C04_reachable_close_requeues. NOT proved (partial): the wire-level '
+               'sequence property itself (first transmission DUP=0, resend only after session-present CONNACK, PUBREL after PUBREC, nothing repeated '
+               'within a connection, nothing after completion) and a run-level invariant of the resubmit queue (needs queue disjointness, not part of '
+               'WF) remain the extracted automaton mon_c04 judged on the implementation trace of every sampled history',
  'technique': 'machine-checked proof in Coq over the engine model + lock-step correspondence of the extracted model with the implementation + extracted '
               'monitors on the implementation trace'}
